@@ -184,7 +184,7 @@ def main():
     sys.path.insert(0, os.path.join(ROOT, "tools", "harness"))
     from props import PROPS
     spec = PROPS[pid]
-    os.makedirs(os.path.join(ROOT, "evidence"), exist_ok=True)
+    EVD = os.environ.get("VERIF_EVIDENCE_DIR", os.path.join(ROOT, "evidence")); os.makedirs(EVD, exist_ok=True)
     os.makedirs(os.path.join(ROOT, "replays"), exist_ok=True)
 
     with Lock():
@@ -221,12 +221,12 @@ def main():
         if errors:
             raise SystemExit("framework error: case files failed to evaluate:\n" + "\n".join(f"{n}\n{o}" for n, o in errors[:2]))
         # correspondence disagreements -> replays
+        for v in res.get("oracle_violations", []):
+            violations.append({"kind": "oracle", "detail": v["detail"], "case": v["case"]})
         for fname, nbad, ids in bad:
             for cid in ids[:3]:
                 meta = res["meta"].get(str(cid)) or res["meta"].get(cid)
                 violations.append({"kind": "correspondence", "detail": f"model ({'regenerated' if variant == 'Run' else 'pinned'}) and implementation disagree on case {cid} of {fname}", "case": meta})
-        for v in res.get("oracle_violations", []):
-            violations.append({"kind": "oracle", "detail": v["detail"], "case": v["case"]})
     finally:
         if not os.environ.get("VERIF_KEEP_CASES"):
             shutil.rmtree(casedir, ignore_errors=True)
@@ -292,7 +292,7 @@ def main():
         "wall_s": round(time.time() - t0, 1),
         "violations": len(reported) + (1 if (not proof_ok and not reported) else 0),
     }
-    json.dump(ev, open(os.path.join(ROOT, "evidence", f"{pid}.json"), "w"), indent=1, default=str)
+    json.dump(ev, open(os.path.join(EVD, f"{pid}.json"), "w"), indent=1, default=str)
     for l in lines:
         print(l)
     print(f"[{pid}] tier={tier} seed={seed} proof={'ok' if proof_ok else 'BROKEN'} theorems={n_obl} "
